@@ -214,10 +214,10 @@ def run(tier):
     th = tier == "thorough"
     rng = random.Random(chk.seed)
     params = [(F(1), F(0), F(1)), (F(1, 2), F(0), F(1)), (F(1), F(1, 3), F(1)), (F(1), F(0), F(1, 2)), (F(1), F(0), F(0)), (F(1, 2), F(1, 3), F(1, 2)),
-              (F(3, 4), F(1, 7), F(3, 4))]
+              (F(3, 4), F(1, 7), F(3, 4)), (F(3, 4), F(0), F(1))]
     calib = 0.0
     for cname, ins in (GRID_T if th else GRID_Q):
-        plist = params if th else [params[0], params[1], params[5], rng.choice(params[2:5]), params[4]]
+        plist = params if th else [params[0], params[1], params[5], rng.choice(params[2:5]), params[4], params[7]]
         if sum(ins) <= 1 and not th:
             plist = [params[5], params[2]]         # few-photon inputs: imperfect purity / brightness must still show
         for nu, x, pi in plist:
@@ -254,7 +254,7 @@ def run(tier):
     for i in range(ncont):
         cname, ins = rng.choice(GRID_Q + [("lossy3b", (1, 0, 0))])
         if i % 5 in (0, 2):        # three and four photons, two modes with the same occupation >= 2
-            cname, ins = [("lossy3", (1, 1, 1)), ("lossy3", (2, 0, 2)), ("hom2", (2, 2)), ("her3", (1, 1, 1)), ("lossy3b", (2, 1, 2))][(i // 5 + i) % 5]
+            cname, ins = [("lossy3", (1, 1, 1)), ("lossy3", (2, 0, 2)), ("hom2", (2, 2)), ("her3", (1, 1, 1)), ("lossy3b", (2, 1, 2)), ("hom2", (3, 2)), ("lossy3", (2, 2, 1))][(i // 5 + i) % 7]
         nu, purity, indist = rng.uniform(0.3, 1), rng.uniform(0.75, 1), rng.uniform(0, 1)
         if rng.random() < 0.2:
             nu = 1.0
